@@ -4,7 +4,7 @@ for a key depends on the key and on nothing that changes between calls (routing 
 from vlib import fixtures
 import re
 
-from rules import order, lru, parallel
+from rules import order, lru, parallel, cachedview
 from rules.variant import storage_switches, arm_region
 from vlib.mir import Fn, op_local, op_place, rv_operands
 from vlib.run import Broken
@@ -24,7 +24,7 @@ def need(fx, fid):
 def run(ctx):
     fx = ctx.facts("default")
     order.use_facts(fx)
-    fixtures.run(ctx, ['order', 'lru', 'clear', 'lockorder'])
+    fixtures.run(ctx, ['order', 'lru', 'clear', 'lockorder', 'cachedview'])
     # recency: every access to an existing entry moves it to the head; list operations run under the index lock
     LM = 'containers::specialized::lru_map::LruMap::<K, V, E>::'
     nt = 0
@@ -36,6 +36,10 @@ def run(ctx):
     ctx.floor('R-TOUCH.accesses', 2)
     lru.list_ops_under_index_lock(ctx, fx, 'src/containers/specialized/lru_map.rs', 'lru_map::LruMap', 'LruMap::hash_map')
     ctx.floor('R-LOCKCOV.lru.sites', 3)
+    # the page cache's CacheBuffer keeps a (pointer, length) view of its own Vec: rebuilt after every reshaping of the Vec
+    cachedview.run(ctx, fx, 'src/cache/buffer.rs', 'cache::buffer::CacheBuffer', 'data_buffer', 'data_slice')
+    ctx.floor('R-CACHEDVIEW.builders', 1)
+    ctx.floor('R-CACHEDVIEW.events', 4)
     parallel.clear_all(ctx, fx, ['src/containers/specialized/lru_map.rs', 'src/containers/specialized/concurrent_lru_map.rs'])
     ctx.floor('R-CLEAR.fields', 3)
     ev = need(fx, LM + "evict_lru")
@@ -159,8 +163,10 @@ def run(ctx):
                     "evict_lru only under a len-vs-capacity comparison; R-FLOW.route: per LoadBalancingStrategy arm the shard "
                     "index uses the key and no thread id / counter / clock. R-TOUCH: a move_to_head/insert_head call dominates, or lies on "
                     "every path to a normal return from, each access to LruNode.value in get/put. R-LOCKCOV.lru: a guard of "
-                    "LruMap.hash_map is live at every LruList operation of the map's methods.",
-        trusted_base=["rustc nightly MIR", "zfacts", "rules/order.py", "rules/lru.py", "rules/sync.py (guard liveness)", "props/C17.py tables"],
+                    "LruMap.hash_map is live at every LruList operation of the map's methods. R-CACHEDVIEW: in CacheBuffer every call that can move or "
+                    "resize data_buffer (reserve/extend/resize/clear/replace, also inside private helpers) is followed on every path to a "
+                    "normal return by a store to data_slice (paths on which data_slice is None excepted).",
+        trusted_base=["rustc nightly MIR", "zfacts", "rules/order.py", "rules/lru.py", "rules/cachedview.py", "rules/sync.py (guard liveness)", "props/C17.py tables"],
         rule_text="obligation = ordering pair | callback entry identity | caller of on_evict | strategy arm",
     )
 
